@@ -477,7 +477,17 @@ namespace detail {
                     case path_state::number: 
                         switch (*p_)
                         {
-                            case '-':case '0':case '1':case '2':case '3':case '4':case '5':case '6':case '7':case '8':case '9':
+                            case '-':
+                                if (!(buffer.empty() || buffer.back() == 'e' || buffer.back() == 'E'))
+                                {
+                                    state_stack_.pop_back(); // number: a minus sign after a digit is the subtraction operator
+                                    break;
+                                }
+                                buffer.push_back(*p_);
+                                ++p_;
+                                ++column_;
+                                break;
+                            case '0':case '1':case '2':case '3':case '4':case '5':case '6':case '7':case '8':case '9':
                             case 'e':case 'E':case '.':
                                 buffer.push_back(*p_);
                                 ++p_;
